@@ -50,7 +50,8 @@ def run_property(prop: str, repo: str, tier: str, seed: int, *, write_evidence: 
             from .report import load_known, match_known
             _known = load_known()
             base_clean = all(o.ok or match_known(prop, o, _known) is not None for o in ctx.obligations)
-            variants = list(getattr(mod, 'VARIANTS', []))
+            from .variants import seed_variants
+            variants = list(getattr(mod, 'VARIANTS', [])) + seed_variants(prop)
             if variants and base_clean:
                 from .variants import run_variants, summarise
                 extra.update(summarise(run_variants(variants, repo, jobs=min(16, os.cpu_count() or 1))))
